@@ -408,10 +408,102 @@ def rule_iter(c, prog):
         c.violation(R, "iter|extend", "descendants iterator does not extend its queue with exactly the children of the popped instance", fn.sp, instance="extend-children")
 
 
+INST_MAP = re.compile(r"HashMap<rbx_types::referent::Ref, rbx_dom_weak::instance::Instance")
+
+
+def _peel(ty):
+    ty = ty or ""
+    while ty.startswith("&"):
+        ty = ty[5:] if ty.startswith("&mut ") else ty[1:]
+    return ty.replace("ahash::hash_map::A", "").replace("std::collections::hash::map::", "")
+
+
+def _spk(n):
+    parts = (n.get("sp") or "").split(":")
+    try:
+        return (int(parts[1]), int(parts[2]))
+    except (IndexError, ValueError):
+        return (0, 0)
+
+
+def rule_guard(c, prog, R="C09.guard", constructors=True):
+    """what the operations accept: a stored instance never replaces a live one, is never filed under the null referent,
+    and the checks an operation documents run before it changes anything; every constructor yields a DOM with a root"""
+    c.rule(R, "rbx_dom_weak::dom: (1) the map insert that files a new instance is preceded by a vacancy test (or uses the value it returns): a builder / transferred instance whose referent is already in the DOM must not silently replace that instance; (2) a builder's referent is tested for null before it is used as a key; (3) in insert / transfer / transfer_within the lookup that panics on a missing (new) parent comes before the first change to either DOM; (4) every function that builds a WeakDom sets a root that is in the instance map")
+    dom_fns = [f for f in prog.lib_fns() if f.body is not None and f.crate == "rbx_dom_weak" and "::dom::" in f.path]
+    # (1) overwrite
+    for f in dom_fns:
+        for blk in core.walk_fn(f):
+            if blk.get("k") != "Block":
+                continue
+            for st in blk["b"]["stmts"]:
+                e = st.get("e")
+                if st.get("k") != "Semi" or e is None:
+                    continue
+                e0 = core.strip(e)
+                if e0.get("k") == "MethodCall" and e0["m"] == "insert" and INST_MAP.search(_peel(core.strip(e0["recv"]).get("ty") or e0["recv"].get("aty"))):
+                    key = core.strip(e0["args"][0])
+                    tested = any(y.get("k") == "MethodCall" and y["m"] in ("contains_key", "get", "entry") and INST_MAP.search(_peel(core.strip(y["recv"]).get("ty"))) and core.strip(y["args"][0]).get("lid") == key.get("lid") and _spk(y) < _spk(e0) for y in core.walk_fn(f))
+                    inst = f"store:{U.short_api(f.path)}"
+                    if tested:
+                        c.ok(R, inst)
+                    else:
+                        c.violation(R, f"overwrite|{U.short_api(f.path)}", f"{f.path} files an instance with `instances.insert(referent, instance)` and drops the value insert returns, without a vacancy test: a builder whose referent was pinned with `with_referent`, or an instance transferred from another DOM, silently REPLACES a live instance that has the same referent — the old parent still lists the referent, the replaced instance's children are orphaned, and `descendants()` can yield an instance twice or never end", core.loc(e0), instance=inst)
+    # (2) null referent, (3) late checks: per public operation
+    ops = {U.short_api(f.path): f for f in dom_fns if (f.d.get("vis") or "").startswith("Public")}
+    for name in ("WeakDom::insert", "WeakDom::transfer", "WeakDom::transfer_within"):
+        f = ops.get(name)
+        if f is None:
+            raise core.AnchorMissing(name)
+        bodies = [f] + [g for g in prog.fns.values() if g.body is not None and g.path.startswith(f.path + "::") and g.dk != "Closure"]
+        if name == "WeakDom::insert":
+            null_tests = [y for b in bodies for y in core.walk_fn(b) if y.get("k") == "MethodCall" and y["m"] in ("is_some", "is_none") and (core.strip(y["recv"]).get("k") == "Field" and core.strip(y["recv"]).get("f") == "referent")]
+            if null_tests:
+                c.ok(R, "insert:referent-not-null")
+            else:
+                c.violation(R, "null-referent|WeakDom::insert", "WeakDom::insert never looks at whether the builder's referent is null (`with_referent(Ref::none())` is accepted): the instance is filed under the null key, its parent lists a null child, and its own children — linked only `if parent.is_some()` — are stored with no parent and listed by nobody", f.sp, instance="insert:referent-not-null")
+        for b in bodies:
+            muts = [y for y in core.walk_fn(b) if (y.get("k") == "MethodCall" and (y["m"] in ("inner_insert", "inner_remove") or (y["m"] in ("insert", "remove") and INST_MAP.search(_peel(core.strip(y["recv"]).get("ty") or y["recv"].get("aty")))))) or (y.get("k") == "Assign" and core.strip(y["l"]).get("k") == "Field" and core.strip(y["l"]).get("f") in ("parent", "children"))]
+            checks = []
+            plids = {q["lid"] for prm in b.params for q in core.walk(prm) if q.get("k") == "Binding"}
+            for y in core.walk_fn(b):
+                if y.get("k") == "MethodCall" and y["m"] in ("unwrap_or_else", "expect", "unwrap"):
+                    r = core.strip(y["recv"])
+                    if r.get("k") == "MethodCall" and r["m"] in ("get", "get_mut") and INST_MAP.search(_peel(core.strip(r["recv"]).get("ty") or r["recv"].get("aty"))):
+                        k = core.strip(r["args"][0])
+                        while k.get("k") in ("AddrOf", "Unary"):
+                            k = core.strip(k["e"])
+                        nm = k.get("name") or ""
+                        if k.get("lid") in plids and "parent" in nm:
+                            checks.append((y, nm))
+            for chk, nm in checks:
+                inst = f"precondition:{name}:{nm}"
+                early = [m_ for m_ in muts if _spk(m_) < _spk(chk)]
+                if early:
+                    c.violation(R, f"late-check|{name}|{nm}", f"{name} checks that `{nm}` exists only after it has already changed the DOM ({len(early)} earlier mutation(s), first at {core.loc(early[0])}): when the new parent is one of the instances being stored or moved the documented panic never fires and the instance ends up its own ancestor; when it is missing altogether the panic leaves the DOM half-changed", core.loc(chk), instance=inst)
+                else:
+                    c.ok(R, inst)
+    # (4) constructors
+    for f in (dom_fns if constructors else []):
+        sig = f.d.get("sig") or ""
+        if not sig.endswith("-> rbx_dom_weak::dom::WeakDom") or sig.startswith("fn(&") or "self" in [prm.get("name") for prm in f.params]:
+            continue
+        lits = [x for x in core.walk_fn(f) if x.get("k") == "Struct" and (x.get("def") or "").endswith("dom::WeakDom")]
+        for lit in lits:
+            root = next((fl["e"] for fl in lit["fields"] if fl.get("f") == "root_ref"), None)
+            inst = f"constructor:{U.short_api(f.path)}"
+            r0 = core.strip(root) if root is not None else {}
+            if r0.get("k") == "Call" and (core.callee(r0) or "").endswith("Ref::none"):
+                c.violation(R, f"no-root|{U.short_api(f.path)}", f"{f.path} builds a WeakDom whose root_ref is the null referent and whose instance map is empty: `root()` and `descendants()` panic, and no operation can give that DOM a root afterwards", core.loc(lit), instance=inst)
+            else:
+                c.ok(R, inst)
+
+
 def run(c, prog):
     rule_who(c, prog)
     rule_link(c, prog)
     rule_acyc(c, prog)
     rule_iter(c, prog)
     rule_fresh(c, prog)
+    rule_guard(c, prog)
     c.not_decided += ["the inductive invariant over every history (each operation's code is checked for the preserving shape; histories are not simulated)", "aliasing arguments such as transfer_within(x, x)"]
